@@ -3,12 +3,22 @@ package main
 // Models of library functions (intrinsics), keyed by ssa function full name.
 
 import (
+	"regexp"
 	"fmt"
 	"go/types"
 	"strings"
 
 	"golang.org/x/tools/go/ssa"
 )
+
+// concOf returns the concrete Go string of a string value or fails closed.
+func concOf(v Value, what string) string {
+	st, ok := v.(Str)
+	if !ok || st.Kind != 0 {
+		panic(engErr(what + " on a symbolic string (only concrete operands are modelled; stub it in the harness)"))
+	}
+	return st.Conc
+}
 
 func (e *Engine) bsl(s *State, v Value) (arr, off, ln *Term, max int, isNil bool) {
 	switch b := v.(type) {
@@ -255,6 +265,36 @@ func init() {
 			s.Objs[sl.Obj] = na
 			return nil, false
 		},
+		// regular expressions and string replacement on concrete operands are evaluated natively
+		// (the request paths and route templates of the path-matching harness are concrete)
+		"regexp.QuoteMeta": simple(func(e *Engine, s *State, a []Value, at ssa.Instruction, _ *ssa.Function) Value {
+			return concStr(regexp.QuoteMeta(concOf(a[0], "regexp.QuoteMeta")))
+		}),
+		"strings.ReplaceAll": simple(func(e *Engine, s *State, a []Value, at ssa.Instruction, _ *ssa.Function) Value {
+			return concStr(strings.ReplaceAll(concOf(a[0], "strings.ReplaceAll"), concOf(a[1], "strings.ReplaceAll"), concOf(a[2], "strings.ReplaceAll")))
+		}),
+		"regexp.MustCompile": simple(func(e *Engine, s *State, a []Value, at ssa.Instruction, _ *ssa.Function) Value {
+			pat := concOf(a[0], "regexp.MustCompile")
+			if _, err := regexp.Compile(pat); err != nil {
+				panic(engErr("regexp.MustCompile would panic: " + err.Error()))
+			}
+			return Opq{"regexp:" + pat}
+		}),
+		"(*regexp.Regexp).ReplaceAllString": simple(func(e *Engine, s *State, a []Value, at ssa.Instruction, _ *ssa.Function) Value {
+			o, ok := a[0].(Opq)
+			if !ok || !strings.HasPrefix(o.Tag, "regexp:") {
+				panic(engErr("ReplaceAllString on an unknown regexp"))
+			}
+			re := regexp.MustCompile(strings.TrimPrefix(o.Tag, "regexp:"))
+			return concStr(re.ReplaceAllString(concOf(a[1], "ReplaceAllString"), concOf(a[2], "ReplaceAllString")))
+		}),
+		"regexp.MatchString": simple(func(e *Engine, s *State, a []Value, at ssa.Instruction, _ *ssa.Function) Value {
+			m, err := regexp.MatchString(concOf(a[0], "regexp.MatchString"), concOf(a[1], "regexp.MatchString"))
+			if err != nil {
+				return Tu{[]Value{Sc{False}, e.newErr(s, "regexp: "+err.Error(), nil)}}
+			}
+			return Tu{[]Value{Sc{Bool(m)}, If{}}}
+		}),
 		"reflect.TypeOf": simple(func(e *Engine, s *State, a []Value, at ssa.Instruction, _ *ssa.Function) Value {
 			i, ok := a[0].(If)
 			if !ok || i.T == nil {
